@@ -37,6 +37,12 @@ def _do(c, name):
         return c.set("k1", b"zz", noreply=False)
     if name == "get_many":
         return c.get_many(["k1", "n"])
+    if name == "quit":
+        return c.quit()
+    if name == "incr":
+        return c.incr("n", 1, noreply=False)
+    if name == "touch":
+        return c.touch("k1", 10, noreply=False)
     return c.delete_many(["k1", "zz"], noreply=False)
 
 
@@ -62,10 +68,10 @@ def h_pooled(which: int, fat: int, fk: int, g1: int, g2: int, tmo: int, ignore_e
     net.recv_delay = dur
     c = PooledClient(ops.ADDR1, socket_module=net, max_pool_size=MAXPOOL or None, pool_idle_timeout=tmo,
                      ignore_exc=ignore_exc)
-    gaps = (0, g1, g2)
+    gaps = (0, g1, g2) + (0,) * max(0, len(SEQ) - 3)
     prev_sock = None          # socket used by the previous call, if that call left it healthy
     for k, name in enumerate(SEQ):
-        clk.advance(gaps[k] if k < 3 else 0)
+        clk.advance(gaps[k])
         plan = FaultPlan(at=fat, kind=kind) if k == which else None
         net.plan = plan
         net.ncalls = 0
@@ -114,6 +120,11 @@ def h_pooled(which: int, fat: int, fk: int, g1: int, g2: int, tmo: int, ignore_e
                 if net.sockets[prev_sock].open:
                     return viol("idle gap", gap, "> pool_idle_timeout", tmo, "but connection", prev_sock, "was not closed")
         prev_sock = sid
+        if name == "quit":
+            # quit gives its connection up: it is closed, not returned to the pool
+            if net.sockets[sid].open:
+                return viol("quit left connection", sid, "open")
+            prev_sock = None
     return ok("fault" if which < len(SEQ) else "no-fault")
 
 
@@ -207,9 +218,11 @@ def h_pool_seq(a1: int, a2: int, a3: int, a4: int, a5: int, a6: int, a7: int, tm
 def shards(tier):
     S = []
     thorough = tier == "thorough"
-    seqs = [("get", "set", "get"), ("set", "get", "get_many"), ("get", "get", "set"), ("delete_many", "get", "set")]
+    seqs = [("get", "set", "get"), ("set", "get", "get_many"), ("get", "get", "set"), ("delete_many", "get", "set"),
+            ("quit", "incr", "get"), ("touch", "quit", "set")]
     if thorough:
-        seqs += [("set", "set", "get"), ("get_many", "delete_many", "get"), ("get", "set", "get", "get")]
+        seqs += [("set", "set", "get"), ("get_many", "delete_many", "get"), ("get", "set", "get", "get"),
+                 ("incr", "touch", "quit"), ("quit", "quit", "get")]
     for mp in ((1, 2, 0) if thorough else (1, 0)):
         for seq in seqs:
             S.append(dict(fn="h_pooled", timeout=1500 if thorough else 500, shard=dict(maxpool=mp, seq=list(seq))))
@@ -220,12 +233,12 @@ def shards(tier):
 
 
 BOUNDS = {
-    "quick": "PooledClient: 3-call histories (4 operation sequences) x max_pool_size {1, unbounded}; one faulty call (symbolic "
+    "quick": "PooledClient: 3-call histories (6 operation sequences over get/set/get_many/delete_many/incr/touch/quit) x max_pool_size {1, unbounded}; one faulty call (symbolic "
              "index or none) with symbolic position 0..5 and kind {timeout, reset, EOF, OSError, ERROR, SERVER_ERROR, truncated}; "
              "idle gaps 0..6 before calls 2 and 3 and pool_idle_timeout 0..4 symbolic; ignore_exc symbolic. ObjectPool: every "
              "sequence of 6 actions over {get, release oldest/newest, destroy, advance clock by d (0..5) / by 1}, idle_timeout "
              "0..3 symbolic, max_size {1,2,3,unbounded}",
-    "thorough": "adds max_pool_size 2, 3 more operation sequences (one of 4 calls), 7-action pool sequences",
+    "thorough": "adds max_pool_size 2, 5 more operation sequences (one of 4 calls), 7-action pool sequences",
 }
 OUTSIDE = "more than one faulty call per history (C01 thorough covers follow-ups); more than 3 objects checked out at once"
 ASSUMPTIONS = ["pymemcache.pool.time is rebound to a virtual clock inside the checking process",
